@@ -628,6 +628,9 @@ ApplyRaw(T, o) ==
       [] o.op = "AddPortMirror"  -> AddPortMirror(T, o.name, o.from, o.to)
       [] o.op = "Collect"        -> R(T, "ok", [k |-> "attrs", v |-> Attrs(T)])
       [] o.op = "CollectASM"     -> R(T, "ok", [k |-> "attrs", v |-> Attrs(T)])
+      \* from the serialised model: it is rebuilt under the same graph id and validated first, so the stored model ends up
+      \* validated too (sites inferred) - modelled as the code does it, the property does not speak about it
+      [] o.op = "TallyASM"       -> IF Valid(T) THEN R(Inferred(T), "ok", [k |-> "tally", v |-> Tally(Inferred(T))]) ELSE Fail(T, TErr)
       [] o.op = "Tally"          -> R(T, "ok", [k |-> "tally", v |-> Tally(T)])
       [] o.op = "Connect"        -> Connect(T, o.s, o.i)
       [] o.op = "Disconnect"     -> Disconnect(T, o.s, o.i)
